@@ -130,3 +130,28 @@ prop("C02", level="exploration", bounded=True,
      note="Known findings (known_findings.json): clear / append(fiber) / position-assignment of a fiber on an owned interior fiber do not update the next rank's list.",
      also=["Rank.pop", "Rank.clearFibers", "Fiber._create_payload", "Fiber.getPayloadRef"],
      trusted_base=["pickle-based deepcopy (bounded only)"])
+
+prop("C12", level="exploration", bounded=True,
+     technique="bounded: content oracle vs the real ==/isEmpty/countValues/nonEmpty over enumerated trees; deductive core: union iterator and box comparisons",
+     text="Bounded (not proved): for every tree of depth 1 (3 coordinates) and depth 2 (2 coordinates) with explicit defaults and empty sub-fibers, "
+          "isEmpty / countValues / nonEmpty / deepcopy / reflexivity are compared with independently extracted content; == is compared with content "
+          "equality in both directions over all depth-1 pairs, sampled depth-2 pairs and pairs differing in a single deep leaf at depth 2-3, free-standing "
+          "and as tensors of different shapes; transitivity over triples; operands snapshotted. Proved core: Fiber.__eq__ is a loop over a | b, whose "
+          "iterator is proved to deliver exactly the union with masks naming the sides present (C04), and Payload ==/!= / Payload.isEmpty are proved "
+          "(C11). The depth recursion of __eq__/isEmpty/countValues (map/lambda/all, default __ne__) is outside pyvc's subset.",
+     note="Exploration level. Trusted for the proved core: pyvc, z3/cvc5.",
+     also=["__or__.or_iterator.__iter__", "Payload.__eq__", "Payload.__ne__", "Payload.isEmpty"],
+     trusted_base=[])
+
+prop("C10", level="exploration", bounded=True,
+     technique="bounded: deep snapshots + object-identity sets around every operation of the two families; deductive core: modifies-frames of the contracted reads",
+     text="Bounded (not proved): every value-returning tensor operation (splits, swizzle, swap, flatten, flatten twice, unflatten, merge, update*, deepcopy) "
+          "on every depth-2 tree over 2 coordinates and on seeded random depth-3 operands (also operands prepared by an earlier flatten or split): operand "
+          "snapshot (tree, rank lists, rank ids, shape, default, formats) identical afterwards, no shared fiber / box / list / rank / attrs / rank-id "
+          "object, follow-up mutation of each side invisible to the other; fiber-level + * / // splits over all depth-1 pairs; every read-only family "
+          "(reads, iteration, co-iteration, ==, queries, printing, YAML, uncompress, footprints) and image rendering (twice, byte-identical). "
+          "Proved core (frames as ordinary pyvc obligations: every heap write on every path is to a local, a fresh object or a listed bookkeeping field): "
+          "getPayload, getPosition, iterRange, the four merge iterators, Payload/CoordPayload value-returning operators.",
+     note="Exploration level. pickle/copy, PIL rendering and YAML are outside pyvc; their effect is observed at run time only.",
+     also=["Fiber.getPayload", "Fiber.getPosition", "iterRange", "_iterator.__iter__", "Payload.__add__", "Payload.__mul__"],
+     trusted_base=["pickle/copy (observed at run time only)"])
